@@ -9,10 +9,12 @@ package index
 
 import (
 	"bytes"
+	"context"
 	"fmt"
 	"io/fs"
 
 	"github.com/sourcegraph/zoekt"
+	"github.com/sourcegraph/zoekt/query"
 	verifrt "github.com/sourcegraph/zoekt/zz_verifrt"
 )
 
@@ -172,4 +174,46 @@ func VerifVisibleRepos(dir string) []string {
 		}
 	}
 	return out
+}
+
+// VerifVisibleDocs: what a loader serves from dir: every *.zoekt file is loaded and listed (Whole).
+func VerifVisibleDocs(dir string) (names []string, contents []string, unreadable int) {
+	paths, _ := verifrt.Glob(dir + "/*.zoekt")
+	for _, p := range paths {
+		f, err := verifrt.OsOpen(p)
+		if err != nil {
+			unreadable++
+			continue
+		}
+		inf, _ := verifNewIndexFile(f)
+		s, err := NewSearcher(inf)
+		if err != nil {
+			unreadable++
+			continue
+		}
+		res, err := s.Search(context.Background(), &query.Const{Value: true}, &zoekt.SearchOptions{Whole: true})
+		if err != nil {
+			unreadable++
+			continue
+		}
+		for _, fm := range res.Files {
+			names = append(names, fm.FileName)
+			contents = append(contents, string(fm.Content))
+		}
+	}
+	return names, contents, unreadable
+}
+
+// VerifDefaultCategory / VerifDefaultLanguage replace the go-enry based classification in Builder.Add
+// (config "rewrite") for harnesses whose subject is not file classification.
+func VerifDefaultCategory(doc *Document) {
+	if doc.Category == FileCategoryMissing {
+		doc.Category = FileCategoryDefault
+	}
+}
+
+func VerifDefaultLanguage(doc *Document) {
+	if doc.Language == "" {
+		doc.Language = "Text"
+	}
 }
